@@ -429,6 +429,13 @@ func (e *ddEngine) evalInstr(s *ddState, in ssa.Instruction, prev *ssa.BasicBloc
 				s.vals[x] = aval{k: kInt, i: int64(len(a.s))}
 				return
 			}
+			// the length of a slice made with a known length
+			if ms, ok := stripChangeType(cc.Args[0]).(*ssa.MakeSlice); ok {
+				if l := e.value(s, ms.Len); l.k == kInt {
+					s.vals[x] = l
+					return
+				}
+			}
 		}
 		if sc := cc.StaticCallee(); sc != nil {
 			switch {
